@@ -2732,3 +2732,128 @@ def c06_r7_multimap(ctx):
     if f is not None:
         cf = ctx.sites(f, PA + '::conditional_free', exact=1)
         ctx.check(len(cf) == 1, 'floor|%s|conditional_free' % f.path, 'the subtree-to-inline arm releases the old subtree root', f, f.line)
+
+
+# ------------------------------------------------------------------------------------ C16
+def _sh(x):
+    return x.replace('BuildHasherDefault<FastHasher64>', 'H')
+
+
+NEST_TABLE = {
+    # (held, acquired): reason.  Classes are the guarded types.
+    ('InMemoryState', 'LRUCache<Arc<[u8]>>'): 'TM.state -> read cache stripe: header write / free under the state lock',
+    ('InMemoryState', 'LRUWriteCache'): 'TM.state -> write buffer stripe: header write / allocation under the state lock',
+    ('LRUWriteCache', 'LRUCache<Arc<[u8]>>'): 'write buffer stripe before read cache stripe (documented order in cached_file.rs)',
+    ('LRUWriteCache', 'LRUWriteCache'): 'a second stripe only with try_lock',
+    ('SavepointTransactionState', 'State'): 'savepoint_state -> tracker.state (apply_on_commit / apply_on_abort)',
+    ('State', 'InMemoryState'): 'tracker.state -> TM.state: the documented order (register_read_transaction)',
+    ('SystemNamespace', 'InMemoryState'): 'system_tables -> TM.state',
+    ('SystemNamespace', 'SavepointTransactionState'): 'system_tables -> savepoint_state',
+    ('SystemNamespace', 'State'): 'system_tables -> tracker.state',
+    ('SystemNamespace', 'TableNamespace'): 'only on the exclusive commit path (page_allocator() under system_tables)',
+    ('SystemNamespace', 'UnpersistedState'): 'system_tables -> TM.unpersisted',
+    ('SystemNamespace', 'Vec<PageNumber>'): 'system_tables -> freed pages list',
+    ('TableNamespace', 'InMemoryState'): 'tables -> TM.state',
+    ('TableNamespace', 'PageTrackerPolicy'): 'tables -> allocation tracker',
+    ('TableNamespace', 'State'): 'tables -> tracker.state (savepoint registration under the tables lock)',
+    ('TableNamespace', 'SystemNamespace'): 'tables -> system_tables: the shared-access order',
+    ('TableNamespace', 'UnpersistedState'): 'tables -> TM.unpersisted',
+    ('TableNamespace', 'Vec<PageNumber>'): 'tables -> freed pages list',
+    ('Vec<PageNumber>', 'SystemNamespace'): 'only in restore_savepoint_inner (&mut self, exclusive)',
+    ('Vec<PageNumber>', 'UnpersistedState'): 'freed pages list -> TM.unpersisted',
+}
+DEBUG_CLASSES = ('HashSet<PageNumber', 'HashMap<PageNumber')  # debug-assertion bookkeeping sets
+EXCLUSIVE_ONLY = {
+    ('SystemNamespace', 'TableNamespace'): {'WriteTransaction::durable_commit', 'WriteTransaction::store_data_freed_pages_for'},
+    ('Vec<PageNumber>', 'SystemNamespace'): {'WriteTransaction::restore_savepoint_inner'},
+}
+FORBIDDEN = [
+    ('InMemoryState', 'State', 'TM.state -> tracker.state would invert the documented order'),
+    ('UnpersistedState', 'State', 'TM.unpersisted -> tracker.state'),
+    ('InMemoryState', 'TableNamespace', 'TM.state -> tables'),
+    ('InMemoryState', 'SystemNamespace', 'TM.state -> system_tables'),
+    ('InMemoryState', 'Vec<PageNumber>', 'TM.state -> freed pages'),
+    ('PageTrackerPolicy', 'Vec<PageNumber>', 'allocation tracker -> freed pages (freed pages must be taken first)'),
+    ('LRUCache<Arc<[u8]>>', 'LRUWriteCache', 'read cache stripe -> write buffer stripe'),
+    ('State', 'TableNamespace', 'tracker.state -> tables'),
+    ('State', 'SystemNamespace', 'tracker.state -> system_tables'),
+]
+
+
+def c16_rules(ctx):
+    ctx.set_rule('C16.R1a', 'the shared freed-pages lock is held only for the merge, never across a tree descent')
+    n = 0
+    bad = []
+    for f in ctx.facts.fn_list:
+        for c in f.calls:
+            cal = c.callee or ''
+            if 'btree_mutator::MutateHelper' in cal or 'btree_cursor::CursorMut' in cal or 'btree_cursor::CursorTree' in cal and 'drain_freed' not in cal:
+                n += 1
+                h = core.held_types_at(f, c.bb)
+                if 'Vec<PageNumber>' in h:
+                    bad.append((f, c))
+    ctx.per_rule[ctx.rule]['sites'] += n
+    ctx.check(n >= 40, 'floor|tree-mutation-calls', 'tree mutation call sites examined: %d' % n)
+    ctx.check(not bad, 'held|freed_pages-across-descent|%s' % (bad[0][0].path if bad else ''), 'no freed-pages guard is live at any MutateHelper/CursorMut call (%d sites)' % n, bad[0][0] if bad else None, bad[0][1].line if bad else None)
+    f = ctx.fn('btree::merge_freed_pages')
+    if f is not None:
+        lk = ctx.sites(f, 'Mutex::lock', exact=1)
+        ctx.no_direct(f, ['MutateHelper::insert', 'MutateHelper::delete'], 'merge touches no tree')
+
+    ctx.set_rule('C16.R1b', 'lock nesting table: every direct (depth<=2, statically resolved) nesting of two locks is a confirmed pair')
+    pairs = core.direct_lock_nestings(ctx.facts, 2)
+    seen = set()
+    for (h, a, kind), sites in sorted(pairs.items()):
+        if any(h.startswith(d) or a.startswith(d) for d in DEBUG_CLASSES):
+            ctx._ob(True)
+            continue
+        key = (h, a)
+        seen.add(key)
+        okk = key in NEST_TABLE
+        if key == ('LRUWriteCache', 'LRUWriteCache'):
+            okk = kind == 'try'
+        if key == ('InMemoryState', 'LRUWriteCache') and kind == 'try':
+            okk = True
+        ctx._ob(okk, ctx.sample('nesting', None, None, '%s -> %s (%s) in %s' % (h, a, kind, sorted({s[0].split('::')[-1] for s in sites})[:6])) if False else {'rule': ctx.rule, 'cfg': ctx.cfg, 'kind': 'nesting', 'what': '%s -> %s (%s) in %s: %s' % (h, a, kind, sorted({s[0].split("::")[-1] for s in sites})[:6], NEST_TABLE.get(key, 'NOT CONFIRMED'))})
+        if not okk:
+            fobj = ctx.facts.fns.get(sites[0][0])
+            ctx.violate('new-nesting|%s|%s|%s' % (h, a, kind), 'new lock nesting: `%s` is acquired (%s) while `%s` is held, in %s (via %s) -- confirm the order against the table and add it' % (a, kind, h, sorted({s[0] for s in sites})[:3], sites[0][2]), fobj, sites[0][1])
+        if key in EXCLUSIVE_ONLY:
+            fnset = {s[0] for s in sites}
+            extra = [x for x in fnset if not any(core.name_matches(e, core.alt_names(x)) for e in EXCLUSIVE_ONLY[key])]
+            ctx.check(not extra, 'exclusive|%s|%s|%s' % (h, a, extra[0] if extra else ''), 'the reversed nesting %s -> %s occurs only on exclusive (&mut self / by-value) paths %s (found also in %s)' % (h, a, sorted(EXCLUSIVE_ONLY[key]), extra))
+            for x in fnset:
+                fx = ctx.facts.fns.get(x)
+                if fx is not None and core.name_matches('WriteTransaction::store_data_freed_pages_for', fx.names):
+                    # &self helper: its callers must be exclusive
+                    cs = ctx.facts.callers_of('WriteTransaction::store_data_freed_pages_for')
+                    okc = all(any(core.name_matches(e, core.alt_names(p)) for e in ('WriteTransaction::durable_commit', 'WriteTransaction::store_data_freed_pages')) for p in cs)
+                    ctx.check(okc, 'exclusive-callers|store_data_freed_pages_for', 'store_data_freed_pages_for is only reached from the commit path (callers: %s)' % sorted(cs))
+    for (h, a, why) in FORBIDDEN:
+        ctx.check((h, a) not in seen, 'forbidden-nesting|%s|%s' % (h, a), 'forbidden lock order absent: %s' % why)
+    core_pairs = [('State', 'InMemoryState'), ('TableNamespace', 'SystemNamespace'), ('LRUWriteCache', 'LRUCache<Arc<[u8]>>'), ('TableNamespace', 'State')]
+    for p in core_pairs:
+        ctx.check(p in seen, 'floor|nesting|%s|%s' % p, 'the lock-nesting extractor still sees the documented nesting %s -> %s (otherwise it is blind)' % p)
+    # State -> InMemoryState exactly in register_read_transaction
+    st = {s[0] for (h, a, k), v in pairs.items() if (h, a) == ('State', 'InMemoryState') for s in v}
+    ctx.check(st == {'transaction_tracker::TransactionTracker::register_read_transaction'}, 'only|State->InMemoryState', 'tracker.state -> TM.state nests only in register_read_transaction (found %s)' % sorted(st))
+
+    ctx.set_rule('C16.R1e', 'a second write-buffer stripe is only ever taken with try_lock')
+    ctx.callers_eq('Mutex::try_lock', {PCF + '::write', PCF + '::flush_buffered_pages'})
+
+    ctx.set_rule('C16.R3', 'no transaction-level lock is held across user code')
+    n = 0
+    for f in ctx.facts.fn_list:
+        for c in f.calls:
+            if c.declared and c.declared.split('::')[-1] in ('call_mut', 'call_once', 'call') and c.resolved is None:
+                n += 1
+                h = core.held_types_at(f, c.bb) & {'State', 'InMemoryState', 'TableNamespace', 'SystemNamespace', 'Vec<PageNumber>', 'UnpersistedState'}
+                root = ctx.facts.root_of(f)
+                allowed = core.name_matches('WriteTransaction::read_existing_system_table', root.names) and h == {'SystemNamespace'}
+                ctx._ob(not h or allowed)
+                if h and not allowed:
+                    ctx.violate('lock-across-callback|%s|%s' % (root.path, '+'.join(sorted(h))), 'lock(s) %s held while calling a caller-supplied closure' % sorted(h), f, c.line)
+    ctx.check(n >= 20, 'floor|callback-sites', 'caller-supplied closure call sites examined: %d' % n)
+    # read_existing_system_table's closure parameter is internal: all callers pass local closures
+    cs = ctx.facts.callers_of('WriteTransaction::read_existing_system_table')
+    ctx.check(all(p.startswith('transactions::WriteTransaction::') for p in cs), 'internal-callback|read_existing_system_table', 'read_existing_system_table is only called from WriteTransaction methods (its closure is internal code)')
